@@ -23,7 +23,9 @@ impl TypeFilter {
     ) -> Result<Instruction, Error> {
         let array_type = iterator.return_type();
         let var_type = Type::from(var_type);
-        if !array_type.is_iterator() {
+        // the filtered iterator answers (false, default of T) once exhausted,
+        // so a T without any value cannot be filtered for
+        if !array_type.is_iterator() || Variable::of_type(&var_type).is_none() {
             return Err(Error::CannotDo2(array_type, BinOperator::Filter, var_type));
         }
         Ok(Self { iterator, var_type }.into())
@@ -35,7 +37,7 @@ impl Exec for TypeFilter {
         let iterator = self.iterator.exec(interpreter)?;
         let mut interpreter = interpreter.create_layer();
         interpreter.insert("iterator".into(), iterator);
-        let default_value = Variable::of_type(&self.var_type).unwrap_or(Variable::Void);
+        let default_value = Variable::of_type(&self.var_type).unwrap();
         interpreter.insert("default".into(), default_value);
         Ok(Code::parse(
             &interpreter,
